@@ -1769,6 +1769,25 @@ def b_nc_pairs(tier, rnd):
                     "comparison with None", "cases": cases}
 
 
+@battery("guitar_nc")
+def b_guitar_nc(tier, rnd):
+    from mingus.containers.note import Note
+    from mingus.containers.note_container import NoteContainer
+    from mingus.containers import instrument as I
+    g2 = I.Guitar()
+    g2.set_range((Note("C", 2), Note("C", 7)))
+    cases = []
+    for inst in (I.Guitar(), g2):
+        for k in (0, 1, 2, 3, 5, 6, 6, 7, 7, 8, 12):
+            for _ in range(6):
+                nc = NoteContainer()
+                nc.notes = [Note(rnd.choice(["C", "B#", "Cb", "F#", "A", "E", "D", "G"]), rnd.choice([3, 4, 5, 6] if _ % 2 else [1, 3, 4, 6, 8]))
+                            for _j in range(k)]
+                cases.append((inst, nc))
+    return {"rule": "2 guitars (class range, custom range) x containers of 0..12 notes (both sides of six), all inside the range "
+                    "or with strays", "cases": cases}
+
+
 @battery("instr_nc")
 def b_instr_nc(tier, rnd):
     from mingus.containers.note import Note
